@@ -73,6 +73,9 @@ def main():
                 res["error"] = err[-400:]
                 return res
         else:
+            if os.path.exists(os.path.join(d, "eval.json")):       # a re-confirmation (e.g. the patch was ported to a new HEAD)
+                old = json.load(open(os.path.join(d, "eval.json")))
+                res["first_evaluation_checks"] = old.get("first_evaluation_checks", old.get("checks"))
             rc0, out0 = run_demo(wt, os.path.join(d, "demo.py"))
             rc, out, err = sh("git -C %s apply %s" % (wt, patch))
             res["applies"] = rc == 0
